@@ -41,7 +41,15 @@ impl Secrets {
             return (rng.pick(&["", "  "]).to_string(), 0);
         }
         self.serial += 1;
-        let s = format!("CANARY-{}-{}-s3cr3t", self.case_no, self.serial);
+        // secrets as they really arrive: some carry a trailing line break (pasted key, CRLF .env
+        // file) or another byte that is illegal in a header value
+        let tail = match rng.below(12) {
+            0 => "\n",
+            1 => "\r\n",
+            2 => "\u{1}x",
+            _ => "",
+        };
+        let s = format!("CANARY-{}-{}-s3cr3t{tail}", self.case_no, self.serial);
         self.vals.push(s.clone());
         (s, self.vals.len() - 1)
     }
@@ -343,7 +351,16 @@ fn one_case(rep: &mut Report, model: &mut Model, rng: &mut Rng, case_no: u64) {
     let m_run = model.ask(&run_line);
     let reqs = provider.requests.lock().unwrap().clone();
     let resolved_to_provider = m_run != "none" && m_run.split(' ').find(|t| t.starts_with("ep=")).map(|t| t != "ep=3").unwrap_or(false);
-    if resolved_to_provider {
+    let wire_ids: Vec<usize> = {
+        let key_tok = m_run.split(" key=").nth(1).and_then(|r| r.split(' ').next()).unwrap_or("_").to_string();
+        let wire_tok = m_run.split(" wire=[").nth(1).map(|r| r.trim_end_matches(']').to_string()).unwrap_or_default();
+        key_tok.parse::<usize>().ok().into_iter().chain(wire_tok.split(',').filter_map(|p| p.split_once(':').and_then(|(_, v)| v.parse::<usize>().ok()))).collect()
+    };
+    let malformed_on_wire = wire_ids.iter().any(|i| sec.vals.get(*i).map(|v| v.chars().any(|c| c.is_control())).unwrap_or(false));
+    if malformed_on_wire {
+        // the request cannot be built: nothing is sent; the canary search below still applies
+        rep.count("runs_with_a_secret_illegal_in_a_header");
+    } else if resolved_to_provider {
         rep.count("runs_reaching_the_provider");
         match reqs.first() {
             None => rep.disagreement("wire", case.clone(), "no request reached the provider", &m_run),
